@@ -839,6 +839,13 @@ def check_predicates(ctx):
 
 
 def check_fault_line(ctx):
+    """C04.E: the command loop, executed by the checker's interpreter with a scripted _execute_command.
+
+    The loop runs commands[counter] while the subroutine's own counter is inside the list (whatever the previous command did
+    to the counter: +1, jump backwards, jump forwards, jump past the end), touches no other subroutine's counter, hands a fault to
+    _handle_command_exception together with the counter value read BEFORE the faulting command ran, and executes nothing after a
+    fault - whether the hook raises (the base class) or returns (a subclass that only logs)."""
+    from .. import circuit as C
     repo = ctx.repo
     ex = executor(ctx)
     m = ex.module
@@ -847,43 +854,97 @@ def check_fault_line(ctx):
     if fn is None or hce is None:
         raise AnalysisError("_execute_commands/_handle_command_exception not found")
     ctx.fn("Executor._execute_commands")
-    loops = [st for st in fn.body if isinstance(st, ast.While)]
-    if len(loops) != 1:
-        ctx.error("C04.E", "_execute_commands: expected one while loop")
+
+    class _Log:
+        _nqsa_model = True
+
+        def debug(self, *a_, **k_):
+            return None
+        info = warning = error = debug
+
+    cmds = [C.Obj(None, {"tag": f"c{i}"}) for i in range(4)]
+
+    def run_(start, script, hook_raises=True):
+        """script: command index -> action ('+1' | ('jump', n) | ('fault', counter value left behind))"""
+        o = C.object_from_init(repo, ex, {"_logger": _Log(), "_program_counters": {4: start, 9: 7}}, kind="self")
+        trace, faults = [], []
+
+        def execute_command(o_, subroutine_id=None, command=None, *a_, **k_):
+            pcs = o_.fields["_program_counters"]
+            idx = next((i for i, c in enumerate(cmds) if c is command), None)
+            trace.append((idx, pcs[subroutine_id], subroutine_id))
+            if len(trace) > 12:
+                pcs[subroutine_id] = 10 ** 6  # runaway: end the history (the trace already shows it)
+                return None
+            act = script.get(idx, "+1")
+            if act == "+1":
+                pcs[subroutine_id] += 1
+            elif act[0] == "jump":
+                pcs[subroutine_id] = act[1]
+            elif act[0] == "fault":
+                pcs[subroutine_id] = act[1]
+                raise C.EvalRaise("RuntimeError", "scripted fault")
+            return None
+
+        def hook(o_, exc=None, prog_counter=None, traceback_str=None, *a_, **k_):
+            faults.append((getattr(exc, "fields", {}).get("exc_name") if isinstance(exc, C.Obj) else exc, prog_counter))
+            if hook_raises:
+                raise C.EvalRaise("RuntimeError", f"At line {prog_counter}")
+            return None
+
+        sc = C.Scenario()
+        sc.method_overrides = {"_execute_command": execute_command, "_handle_command_exception": hook}
+        sc.externals.update({"traceback.format_tb": lambda tb=None, *a_: [], "traceback.format_exc": lambda *a_: ""})
+        outcome = "returned"
+        try:
+            C.Interp(repo, ctx.ev, sc, ex).call_function(m, fn, [], {"subroutine_id": 4, "commands": list(cmds)}, self_obj=o)
+        except C.EvalRaise as ex_:
+            outcome = ex_.exc_name
+        return trace, faults, outcome, o.fields["_program_counters"]
+
+    bad = {}
+    n = 0
+    try:
+        for label, start, script, want in (
+                ("straight line from 0", 0, {}, [0, 1, 2, 3]), ("start in the middle", 2, {}, [2, 3]), ("counter already at the end", 4, {}, []), ("counter past the end", 6, {}, []),
+                ("jumps back and forth", 0, {0: ("jump", 2), 2: ("jump", 1), 1: ("jump", 3)}, [0, 2, 1, 3]), ("jump past the end", 0, {1: ("jump", 10)}, [0, 1]),
+                ("jump to exactly the end", 1, {1: ("jump", 4)}, [1]), ("jump to the first command once", 2, {3: ("jump", 0), 1: ("jump", 4)}, [2, 3, 0, 1])):
+            n += 1
+            trace, faults, outcome, pcs = run_(start, script)
+            got = [t[0] for t in trace]
+            if outcome != "returned" or got != want:
+                bad.setdefault("loop-until-counter-past-end", f"{label}: commands executed {got} ({outcome}), expected {want}")
+            if any(t[0] != t[1] for t in trace if t[0] is not None) or any(t[0] is None for t in trace):
+                bad.setdefault("fetch-at-counter", f"{label}: the command executed is not commands[counter] at (index, counter) = {[(t[0], t[1]) for t in trace]}")
+            if pcs.get(9) != 7 or any(t[2] != 4 for t in trace):
+                bad.setdefault("loop-until-counter-past-end", f"{label}: another subroutine's counter or id is used ({pcs})")
+        for hook_raises in (True, False):
+            for label, start, script, fault_at in (("fault in the second command, counter moved before the fault", 0, {1: ("fault", 3)}, 1), ("fault in the first command", 0, {0: ("fault", 0)}, 0),
+                                                   ("fault after a jump", 0, {0: ("jump", 3), 3: ("fault", 1)}, 3)):
+                n += 1
+                trace, faults, outcome, pcs = run_(start, script, hook_raises)
+                got = [t[0] for t in trace]
+                if not faults:
+                    bad.setdefault("execution-inside-try", f"{label}: the fault is not handed to _handle_command_exception (outcome {outcome})")
+                    continue
+                if faults[0][1] != fault_at:
+                    bad.setdefault("fault-line-is-counter-before-execution", f"{label}: the hook is told line {faults[0][1]}, the faulting command was at line {fault_at}")
+                if got[-1] != fault_at or len(faults) != 1 or (hook_raises and outcome == "returned") or (not hook_raises and outcome != "returned"):
+                    bad.setdefault("fault-stops-execution", f"{label} (hook {'raises' if hook_raises else 'returns'}): after the fault the loop executed {got[got.index(fault_at) + 1:] if fault_at in got else got} "
+                                                            f"and called the hook {len(faults)} times (outcome {outcome})")
+    except AnalysisError as ex_:
+        ctx.error("C04.E", f"_execute_commands cannot be evaluated: {ex_}")
         return
-    lp = loops[0]
-    subp, cmdsp = A.param_names(fn)[1], A.param_names(fn)[2]
-    ok_test = A.norm(lp.test) == f"self.{PC}[{subp}]<len({cmdsp})"
-    ctx.check("C04.E", "_execute_commands:loop-until-counter-past-end", ok_test, f"loop condition is `{src(lp.test)}`; expected counter < len(commands)", repo.loc(m, lp))
-    pcvar = None
-    tr = None
-    fetched = False
-    for st in lp.body:
-        if isinstance(st, ast.Assign) and isinstance(st.targets[0], ast.Name) and A.norm(st.value) == f"self.{PC}[{subp}]" and tr is None:
-            pcvar = st.targets[0].id
-        if isinstance(st, ast.Assign) and pcvar and A.norm(st.value) == f"{cmdsp}[{pcvar}]" and tr is None:
-            fetched = True
-        if isinstance(st, ast.Try):
-            tr = st
-    ctx.check("C04.E", "_execute_commands:fetch-at-counter", fetched, "the executed command is not commands[<counter read before execution>]", repo.loc(m, lp))
-    ok = False
-    leaves = False
-    if tr is not None and pcvar:
-        for h in tr.handlers:
-            for call in A.calls_in(h):
-                if A.is_self_attr(call.func, "_handle_command_exception"):
-                    b = bind(call, hce)
-                    ok = isinstance(b.get("prog_counter"), ast.Name) and b["prog_counter"].id == pcvar and isinstance(b.get("exc"), ast.Name) and b["exc"].id == h.name
-            last = h.body[-1] if h.body else None
-            leaves = isinstance(last, (ast.Break, ast.Raise, ast.Return))
-    ctx.check("C04.E", "_execute_commands:fault-line-is-counter-before-execution", ok, "the exception wrapper is not given the counter value read before the instruction ran", repo.loc(m, tr) if tr else "")
-    ctx.check("C04.E", "_execute_commands:fault-stops-execution", leaves, "after a fault the loop continues with the next instruction", repo.loc(m, tr) if tr else "")
+    ctx.anchor("C04.E", "command-loop histories executed", n, 12)
+    texts = {"loop-until-counter-past-end": "the loop does not run exactly while this subroutine's counter is inside the command list",
+             "fetch-at-counter": "the executed command is not commands[<counter read before execution>]",
+             "fault-line-is-counter-before-execution": "the exception wrapper is not given the counter value read before the instruction ran",
+             "fault-stops-execution": "after a fault the loop continues", "execution-inside-try": "the instruction is not executed inside the try block"}
+    for key, text in texts.items():
+        ctx.check("C04.E", f"_execute_commands:{key}", key not in bad, f"{text}: {bad.get(key)}", repo.loc(m, fn), trivial=(key == "execution-inside-try"))
     # wrapper raises, mentioning the counter
-    ok = G.always_raises(A.strip_docstring(hce.body)) and any(isinstance(n, ast.Name) and n.id == A.param_names(hce)[2] for n in ast.walk(hce.body[-1]))
+    ok = G.always_raises(A.strip_docstring(hce.body)) and any(isinstance(n_, ast.Name) and n_.id == A.param_names(hce)[2] for n_ in ast.walk(hce.body[-1]))
     ctx.check("C04.E", "_handle_command_exception:raises-with-line", ok, "_handle_command_exception does not always raise an error that names the line", repo.loc(m, hce))
-    # handlers are executed inside the try
-    inside = tr is not None and any(A.is_self_attr(c.func, "_execute_command") for s in tr.body for c in A.calls_in(s))
-    ctx.check("C04.E", "_execute_commands:execution-inside-try", inside, "the instruction is not executed inside the try block", repo.loc(m, lp), trivial=True)
 
 
 SM = "netqasm.sdk.shared_memory"
@@ -983,16 +1044,42 @@ def check_memory_primitives(ctx):
                       f"RegisterGroup.__getitem__ gives {got} for a written index, an unwritten one, index 0 holding 0, and the two indices just outside the group", rg.loc(f))
     # SharedMemory writers used by ret_reg / ret_arr
     f = sh.methods.get("set_register")
+    g_ = sh.methods.get("get_register")
     if f is not None:
-        pv = A.param_names(f)[2]
-        pr = A.param_names(f)[1]
-        # the register object: the parameter itself or a local that is the parameter / parse_register(parameter) on every path
-        regs = {pr}
-        for k_, vs_ in A.assigned_names(f).items():
-            if vs_ and all(v_ is not None and A.norm(v_) in (pr, f"parse_register({pr})") for v_ in vs_):
-                regs.add(k_)
-        mn, mx = _count_stores(f, lambda n: isinstance(n, ast.Assign) and any(A.norm(n.targets[0]) == f"self._registers[{r_}.name][{r_}.index]" for r_ in regs) and A.norm(n.value) == pv)
-        ctx.check("C04.M", "SharedMemory.set_register:stores-value", (mn, mx) == (1, 1), f"SharedMemory.set_register stores the value {mn}..{mx} times per path", sh.loc(f))
+        # executed: after set_register(r, v), with r a Register or its text, exactly bank r.name holds v at r.index; get_register reads it back
+        from .. import circuit as C
+        from ..model import EnumMember
+        ctx.fn("SharedMemory.set_register")
+        rn = repo.get_class("netqasm.lang.encoding", "RegisterName")
+        rmem = ctx.ev.enum_members(rn)
+        R_ = repo.module("netqasm.lang.operand").classes["Register"]
+        mk = lambda bank, idx: C.Obj(R_, {"name": EnumMember(rn.qualname, bank, rmem[bank]), "index": idx})
+        why = None
+        try:
+            for bank, idx, as_text in (("R", 3, False), ("C", 0, False), ("Q", 15, True), ("M", 0, True)):
+                banks = {(rn.qualname, b_): {1: 77} for b_ in rmem}  # the interpreter keys tables by (enum, member name)
+                o = C.object_from_init(repo, sh, {"_registers": banks}, kind="self")
+                sc = C.Scenario()
+                sc.overrides["parse_register"] = lambda text, bank=bank, idx=idx: mk(text[0], int(text[1:]))
+                arg = f"{bank}{idx}" if as_text else mk(bank, idx)
+                C.Interp(repo, ctx.ev, sc, sh).call_function(m, f, [arg, 41], {}, self_obj=o)
+                want = {(rn.qualname, b_): ({1: 77, idx: 41} if b_ == bank else {1: 77}) for b_ in rmem}
+                if o.fields["_registers"] != want:
+                    why = f"set_register({arg!r}, 41) leaves the banks as { {k_[1]: v_ for k_, v_ in o.fields['_registers'].items()} }"
+                    break
+                if g_ is not None:
+                    back = C.Interp(repo, ctx.ev, sc, sh).call_function(m, g_, [arg], {}, self_obj=o)
+                    other = C.Interp(repo, ctx.ev, sc, sh).call_function(m, g_, [mk(bank, 1)], {}, self_obj=o)
+                    if back != 41 or other != 77:
+                        why = f"get_register({arg!r}) reads {back!r} after 41 was stored there (and {other!r} at index 1, which holds 77)"
+                        break
+        except C.EvalRaise as ex_:
+            why = f"raises {ex_}"
+        except AnalysisError as ex_:
+            ctx.error("C04.M", f"SharedMemory.set_register cannot be evaluated: {ex_}")
+            why = "?"
+        if why != "?":
+            ctx.check("C04.M", "SharedMemory.set_register:stores-value", why is None, f"SharedMemory.set_register / get_register: {why}", sh.loc(f))
     f = sh.methods.get("set_array_part")
     if f is not None:
         pa, pi, pv = A.param_names(f)[1:4]
